@@ -56,12 +56,19 @@ def _build_job_statepoint_index(exclude_const, index):
         if key.startswith("sp."):
             indexes[key] = index.build_index(key)
 
+    def is_const(key):
+        if len(indexes[key]) != 1:
+            return False
+        value = next(iter(indexes[key]))
+        if len(indexes[key][value]) != len(index):
+            return False
+        if value is _DictPlaceholder:
+            # All jobs hold a mapping: they only agree if all mappings are empty.
+            return not any(other.startswith(key + ".") for other in dotted_keys)
+        return True
+
     for key in sorted(indexes, key=lambda key: (len(indexes[key]), key)):
-        if (
-            exclude_const
-            and len(indexes[key]) == 1
-            and len(indexes[key][next(indexes[key].keys())]) == len(index)
-        ):
+        if exclude_const and is_const(key):
             continue
         statepoint_key = _strip_prefix(key)
         # Remove _DictPlaceholder keys from the index
